@@ -5,7 +5,7 @@
   C34  Cache.tla     + CacheTrace    : internal/cache sequential op sequences + read-shard schedules through the read function gate
 Verdicts follow DESIGN 4: TLC judges every real trace; a rejection in the internal (structural) vocabulary is DRIFT and the
 observable-only validation (Strict = FALSE) of the same / of exploration traces decides."""
-import json, os, random, re, shutil, time
+import re, json, os, random, re, shutil, time
 import vlib
 
 W = int(os.environ.get("VERIF_WORKERS", "0") or 0) or min(vlib.NCPU, 8)
@@ -32,7 +32,15 @@ def _validate(specdir, module, consts, path, timeout=1500, deque=False, heap="6g
                             extra_files={"TraceRun.cfg": _trace_cfg(consts)})
     if not v.accepted and (v.tlc.violation or ("Error:" in v.tlc.out and "TraceAccepted" not in v.tlc.out)):
         raise vlib.Inconclusive("trace spec error during validation (%s):\n%s" % (module, v.tlc.out[-3000:]))
+    mm = None
+    for mm in re.finditer(r'"?OVERCAP"?,\s*(\d+)', v.tlc.out):
+        pass
+    if mm:
+        OVERCAP[0] = max(OVERCAP[0], int(mm.group(1)))
     return v
+
+
+OVERCAP = [0]   # C34: completed ops after which the accounted size exceeded the capacity with nothing reserved (counted by TLC)
 
 
 def _segment(path, hwm, start_pred):
@@ -740,7 +748,12 @@ def run_c34(run):
             ls = ls[:-1]
         open(spath, "w").write("\n".join(ls) + "\n")
     r1 = two_stage(run, CA, "CacheTrace", CA_CONSTS, spath, CA_OBS, "C34-seq", lambda l: '"op":"newcache"' in l)
-    if died and not run.violations:
+    run.cov["ops_leaving_size_over_capacity"] = OVERCAP[0]
+    if OVERCAP[0] > 0:
+        run.violation({"kind": "size-over-capacity-after-insert"},
+                      "%d completed operations left the accounted size above the capacity with no reservation outstanding "
+                      "(always by less than the last inserted value, which TLC enforces)" % OVERCAP[0])
+    if died and not [v for v in run.violations]:
         raise vlib.Inconclusive("cache driver died and the part of the trace it logged was accepted:\n" + died[-1500:])
     if not died and (st.get("seq_hits", 0) < 20 or st.get("seq_evictions_observed", 0) < 5):
         raise vlib.Inconclusive("vacuous cache workload: %s" % st)
